@@ -82,9 +82,10 @@ Definition check_path (f : fs) (abs : list comp) : cres :=
   end.
 
 (* ------------------------------------------------------------------ resolution *)
-(** Who is importing: a file (its canonical path), the default source (snippets, `State::import`:
+(** Who is importing: a file (its canonical path), a directory (SourceDirectory, used by
+    embedders: imports resolve inside it), the default source (snippets, `State::import`:
     cwd then library paths) or the CLI input file marker SourceDefaultIgnoreJpath (cwd only). *)
-Inductive src := SFile (c : path) | SDefault | SNoJ.
+Inductive src := SFile (c : path) | SDir (d : path) | SDefault | SNoJ.
 Inductive rres := RHit (c : path) | RNotFound | RHard | RFuel.
 
 Definition abs_of (d : path) : list comp := map CN d.
@@ -113,7 +114,7 @@ Definition resolve_impl (f : fs) (cwd : path) (libs : list (list comp)) (from : 
     | CFuel => RFuel
     end
   | _ =>
-    let direct := match from with SFile c => removelast c | _ => cwd end in
+    let direct := match from with SFile c => removelast c | SDir d => d | _ => cwd end in
     match check_path f (abs_of direct ++ raw) with
     | CHit c => RHit c
     | CMiss => try_libs f libs raw
@@ -129,6 +130,7 @@ Definition candidates (cwd : path) (libs : list (list comp)) (from : src) (raw :
   | SNoJ => [abs_of cwd ++ raw]
   | SDefault => (abs_of cwd ++ raw) :: map (fun l => l ++ raw) libs
   | SFile c => (abs_of (removelast c) ++ raw) :: map (fun l => l ++ raw) libs
+  | SDir d => (abs_of d ++ raw) :: map (fun l => l ++ raw) libs
   end.
 
 (** ... and "the first candidate that is anything but `not found` decides". *)
@@ -422,12 +424,12 @@ Fixpoint run (w : world) (fuel : nat) (k : task) (st : state) : res N * state :=
 
 (* ------------------------------------------------------------------ histories *)
 (** One top-level operation on the State: a snippet `(import p).sel` / `importstr p` /
-    `importbin p` (from = default source), or the same through `State::import_from` with the
-    CLI's SourceDefaultIgnoreJpath marker. *)
-Record op := { o_noj : bool; o_term : term }.
+    `importbin p` (from = default source), or the same through `State::import_from` /
+    `resolve_from` with the CLI's SourceDefaultIgnoreJpath marker or a SourceDirectory. *)
+Record op := { o_src : src; o_term : term }.
 Inductive oval := VNum (n : N) | VStr (cid : N) | VBytes (cid : N) | VErr (e : ekind).
 
-Definition op_src (o : op) : src := if o_noj o then SNoJ else SDefault.
+Definition op_src (o : op) : src := o_src o.
 
 Definition run_op (w : world) (fuel : nat) (o : op) (st : state) : oval * state :=
   let t := o_term o in
